@@ -62,6 +62,38 @@ fn main() {
             }
             0
         }
+        #[cfg(feature = "expl")]
+        "xhist" => {
+            // debug helper (explanations build): mc xhist "<op> ; <op>" "<term>" "<term>"
+            use slotted_egraphs::*;
+            let ops: Vec<hist::Op> = args[2].split(';').map(|s| hist::Op::parse(s.trim()).expect("parse op")).collect();
+            let mut eg = EGraph::<sym::Sym>::default();
+            let mut rec = Vec::new();
+            for (k, o) in ops.iter().enumerate() {
+                println!(">> {}", o.show());
+                match o {
+                    hist::Op::Union(l, r) => {
+                        let a = sym::add_t(&mut eg, l, sym::Naming::Numeric, &mut rec);
+                        let b = sym::add_t(&mut eg, r, sym::Naming::Numeric, &mut rec);
+                        eg.union_justified(&a, &b, Some(format!("j{k}")));
+                    }
+                    hist::Op::Add(t) => {
+                        sym::add_t(&mut eg, t, sym::Naming::Numeric, &mut rec);
+                    }
+                }
+            }
+            eg.dump();
+            let t1 = term::T::parse(&args[3], sym::SYM_SIG).unwrap();
+            let t2 = term::T::parse(&args[4], sym::SYM_SIG).unwrap();
+            let i1 = eg.add_syn_expr(sym::to_recexpr(&t1, sym::Naming::Numeric));
+            let i2 = eg.add_syn_expr(sym::to_recexpr(&t2, sym::Naming::Numeric));
+            println!("i1 {i1:?} -> {:?}\ni2 {i2:?} -> {:?}", eg.find_applied_id(&i1), eg.find_applied_id(&i2));
+            eg.dump();
+            println!("eq {}", eg.eq(&i1, &i2));
+            let p = eg.explain_equivalence(sym::to_recexpr(&t1, sym::Naming::Numeric), sym::to_recexpr(&t2, sym::Naming::Numeric));
+            println!("{}", p.to_string(&eg));
+            0
+        }
         "segments" => {
             let prop = find_prop(&args[2]);
             let tier = Tier::parse(&args[3]);
